@@ -164,3 +164,26 @@ Section Client.
     exact (unlock_only_when_held St pmode pstep client_bracketed (l, s) s' t o HL Hs).
   Qed.
 End Client.
+
+(* non-vacuity: a writer and a reader program; the state in which the writer is inside its section and about to
+   write is reachable, and the reader is then still outside *)
+Module ClientExample.
+  Definition wprog : list stmt := [SL WLock; SA true "f"%string; SL WUnlock].
+  Definition rprog : list stmt := [SL RLock; SA false "f"%string; SL RUnlock].
+  Definition progs := [wprog; rprog].
+  Lemma progs_ok : forall p, In p progs -> prog_ok Out p = true.
+  Proof. intros p [<-|[<-|[]]]; reflexivity. Qed.
+  Example writer_inside_reachable :
+    exists l s, sys_reach St (pstep progs) (lock_init, pinit) (l, s)
+      /\ about_to s 0 true "f"%string /\ tp (s 1) = rprog /\ pmode s 1 = Out.
+  Proof.
+    eexists. eexists. split; [|split; [|split]].
+    - eapply sr_step. eapply sr_step. eapply sr_step. apply sr_refl.
+      + eapply ss_tau. apply (p_start progs _ 0 wprog); [reflexivity|reflexivity|left; reflexivity].
+      + eapply ss_tau. apply (p_start progs _ 1 rprog); [reflexivity|reflexivity|right; left; reflexivity].
+      + eapply ss_lock. eapply (p_lock progs _ 0 WLock); reflexivity. apply ls_wlock; reflexivity.
+    - eexists. reflexivity.
+    - reflexivity.
+    - reflexivity.
+  Qed.
+End ClientExample.
